@@ -159,3 +159,17 @@ CLAIMED['C07'] = ('model_checking',
     '(paragraph clauses are checked by the harness on real trees); constructs outside the grammar (tables, floats, math environments) are '
     'covered by C10/C11.',
     TECH)
+CLAIMED['C10'] = ('model_checking',
+    'Arrays.tla: for six column specifications (bars, p{}, @{} also leading, *{n}{} repetitions) TLC generates every table whose first row '
+    'ranges over the whole cell grammar (ordinary cells of several content kinds, \\multicolumn with its own bars, spans summing to the '
+    'column count), with \\hline, one \\cline{a-b} and further simpler rows and an optional trailing \\hline, checks compileColspec\'s token loop '
+    'with pushed-back repetitions against the flattened specification (ColspecCompiles) and applyBorders\' running column counter against '
+    'the expected ruled sides (BordersOnAdjacentCellsOnly, FullRowSpansSumToCols).  The tables (quick: a 12000-sample per family of about 390000) '
+    'are printed as LaTeX and parsed: rows, cells in order with marker text, colspan, the four ruled sides, numCols and absence of definition leaks '
+    'between cells are compared.  Lists: every list-bearing document generated by Digest.tla (C07) is printed with itemize / enumerate / '
+    'description and the list shape compared: one item per \\item in order, words up to the next \\item of the same list, nested lists '
+    'inside their item, terms attached.',
+    'DESIGN.md#c10',
+    'Trusted: TLC, Arrays.tla and the rule-layer conventions for which sides a rule command marks (DESIGN.md C10), Digest.tla for lists, the '
+    'concretisers. longtable/tabularx/booktabs not claimed.',
+    TECH)
